@@ -1,0 +1,47 @@
+//go:build verif
+
+// Contracts for package kvstore (comment-only; read by /verif/govc, never compiled into olric).
+//
+// A KVStore is a list of tables; only the last one takes new entries. Abstractly it is a map from hkey to
+// the entry stored in the unique table that holds the hkey (K-UNIQ below).
+
+package kvstore
+
+//@ devirt storage.Engine => *KVStore
+
+// Representation invariant.
+//@ pred (k *KVStore) inv() =
+//@     k != nil && k.tablesByCoefficient != nil &&
+//@     (forall i int {k.tables[i]} :: 0 <= i && i < len(k.tables) ==> k.tables[i] != nil && k.tables[i].inv() && k.tables[i].allocated == k.tableSize) &&
+//@     (forall i int, j int {k.tables[i], k.tables[j]} :: 0 <= i && i < j && j < len(k.tables) ==> table.sep(k.tables[i], k.tables[j])) &&
+//@     (forall h uint64, i int, j int {k.tables[i].has(h), k.tables[j].has(h)} :: 0 <= i && i < j && j < len(k.tables) ==> !(k.tables[i].has(h) && k.tables[j].has(h)))
+
+// Abstract view: presence of a key, and the table index holding it.
+//@ pure func (k *KVStore) has(h uint64) bool = exists i int {k.tables[i]} :: 0 <= i && i < len(k.tables) && k.tables[i].has(h)
+//@ pure func (k *KVStore) at(h uint64, i int) bool = 0 <= i && i < len(k.tables) && k.tables[i].has(h)
+
+//@ func (k *KVStore) Check(hkey uint64) bool
+//@   props C11
+//@   flag termination
+//@   requires #inv_in: k.inv()
+//@   ensures  #found: result ==> k.has(hkey)
+//@   ensures  #not_found: !result ==> !k.has(hkey)
+//@   loop 0 invariant #scanned: -1 <= i && i < len(k.tables) && forall j int {k.tables[j]} :: i < j && j < len(k.tables) ==> !k.tables[j].has(hkey)
+//@   loop 0 decreases i + 1
+//@   modifies nothing
+
+//@ func (k *KVStore) Get(hkey uint64) (storage.Entry, error)
+//@   props C11 C17 C18
+//@   flag termination
+//@   requires #inv_in: k.inv()
+//@   ensures  #inv_out: k.inv()
+//@   ensures  #found [C11]: result.1 == nil ==> old(k.has(hkey))
+//@   ensures  #not_found [C11]: result.1 != nil ==> !old(k.has(hkey))
+//@   ensures  #err_kind: result.1 == nil || result.1 == storage.ErrKeyNotFound
+//@   ensures  #entry [C11 C17]: result.1 == nil ==> result.0 != nil && forall i int {k.tables[i]} :: k.at(hkey, i) ==> k.tables[i].holds(hkey, result.0)
+//@   ensures  #fresh_value [C18]: result.1 == nil ==> fresh(result.0) && fresh(result.0.value)
+//@   ensures  #same_keys [C11]: forall h uint64 :: k.has(h) == old(k.has(h))
+//@   loop 0 invariant #scanned: -1 <= i && i < len(k.tables) && k.inv() && (forall j int {k.tables[j]} :: i < j && j < len(k.tables) ==> !k.tables[j].has(hkey)) &&
+//@                len(k.tables) == old(len(k.tables)) && (forall j int {k.tables[j]} :: 0 <= j && j < len(k.tables) ==> k.tables[j] == old(k.tables[j])) &&
+//@                (forall j int, h uint64 {k.tables[j].has(h)} :: 0 <= j && j < len(k.tables) ==> k.tables[j].has(h) == old(k.tables[j].has(h)))
+//@   loop 0 decreases i + 1
